@@ -16,7 +16,7 @@ def case_strategy(profile="npu", max_ops=6, big=True, small_arena=False, dtypes=
         prof = "cascade" if (small_arena and profile == "npu" and draw(st.booleans())) else profile
         spec = draw(tflgen.network(prof, **kw))
         cfg = draw(tflgen.config(small_arena=small_arena))
-        if prof == "cascade" and draw(st.booleans()):
+        if prof in ("cascade", "cascade_short") and draw(st.booleans()):
             cfg["optimise"] = "Size"
         return dict(kind="e2e", spec=spec, cfg=cfg)
 
